@@ -3,6 +3,7 @@
 -/
 import AnyVecModel.Proofs.Exec
 import AnyVecModel.Props.Hist
+import AnyVecModel.Props.Refine
 import AnyVecModel.Proofs.KernelClone
 import AnyVecModel.Proofs.KernelDelegConstruct
 namespace AnyVec
@@ -159,6 +160,21 @@ theorem construction_is_the_source (len : Nat) (index : Nat) :
     Gen.Kernel.anyvec_element_clone_trace len index = [.call "clone_fn" []] ∧
     Gen.Kernel.raw_element_layout_trace len index = [.call "element_layout" []] :=
   KernelTie.deleg_construct_tie len index
+
+/-! ### independence over whole histories (Props/Refine.lean) -/
+
+/-- **a vector and its clone (any two vectors) stay independent through every history**: if vector `u` - say the clone
+just made - shows an abstract vector, then after any sequence of element-wise, range and capacity operations on another
+vector `v` - say the original - it still shows the same items at the same capacity, and its storage state is literally
+unchanged (`Refine.history_frame`); only the counter fresh identities come from has advanced. -/
+theorem vectors_stay_independent {bg bg' : Nat → Option VecSt} (cfg : Cfg) (v ty : Nat) (ops : List Refine.VOp) (w : World)
+    (s : Refine.Spec) (h : Refine.Rel bg v ty w s) (hall : ∀ op ∈ ops, op.Allowed s.fixed) (u tu : Nat) (su : Refine.Spec)
+    (hu : u ≠ v) (hrelu : Refine.Rel bg' u tu w su) :
+    (Refine.runOps cfg v ty w ops).vecs[u]? = w.vecs[u]? ∧
+    ∃ s', Refine.Spec.Steps s ops s' ∧
+      Refine.Rel (fun x => (Refine.runOps cfg v ty w ops).vecs[x]?) u tu (Refine.runOps cfg v ty w ops)
+        { su with next := s'.next } :=
+  ⟨Refine.history_frame cfg v ty ops w s h hall u hu, Refine.other_vector_keeps cfg v ty ops w s h hall u tu su hu hrelu⟩
 
 end C08
 end AnyVec
